@@ -399,7 +399,7 @@ def finalize(tier, seed, results):
         out['refuted'] = 1
         out['notes'].append("shared state written during parsing: " + ", ".join(sorted(shared)))
         out['cex'].append({'kind': 'threads', 'why': "parsing writes shared state (" + ", ".join(sorted(shared))[:200] + "): concurrent parses may interfere",
-                           'shared': sorted(shared), 'dedup': 'threads', 'inconclusive_if_not_reproduced': True})
+                           'shared': sorted(shared), 'dedup': 'threads', 'note_if_not_reproduced': True})
     return out
 
 
